@@ -575,11 +575,26 @@ def _apply(op, mdg, M, st, mon):
         M.replace_subdomain(g, new)
         st.mutations += 1
         mon.count("op:replace_0d")
+        sd_map = {g: new}
+        extra = None
+        free = [x for x in M.subdomains() if x.dim > 0 and not M.interfaces_of(x)]
+        if free and op["sel"] % 2 == 0:
+            # one call replacing the 0-d subdomain AND (listed after it) a positive-
+            # dimensional one: every entry of the map must be processed completely
+            h = _pick(free, op["sel"] // 2)
+            hn = _mk({"dim": h.dim, "n": 2, "tri": None})
+            keep = M.replace_subdomain(h, hn)
+            st.once.add(hn)
+            sd_map[h] = hn
+            extra = (hn, keep)
+            mon.count("op:replace_0d_together_with_a_positive_dimensional_subdomain")
         try:
-            mdg.replace_subdomains_and_interfaces(sd_map={g: new})
+            mdg.replace_subdomains_and_interfaces(sd_map=sd_map)
         except KeyError as e:
             mon.violation(M_REPLACE_0D, {"op": op, "error": repr(e)[:200]})
         M.observe_bg(new, mdg.subdomain_to_boundary_grid(new), None)
+        if extra is not None:
+            M.observe_bg(extra[0], mdg.subdomain_to_boundary_grid(extra[0]), extra[1])
         return "replace_0d"
 
     if kind == "replace_sd":
